@@ -3189,6 +3189,9 @@ def ulp(x):
         return dtype("nan")
     if x < 0:
         return ulp(-x)
+    if x < numpy.finfo(dtype).smallest_normal:
+        # subnormals share the spacing of the smallest subnormal (ldexp below would underflow to 0)
+        return numpy.finfo(dtype).smallest_subnormal
     return numpy.ldexp(dtype(1), numpy.frexp(x)[1] + numpy.finfo(dtype).negep)
 
 
